@@ -30,3 +30,17 @@ package main
 //@ func Compile
 //@   ensures [C12:D8-parse-error] callres("parser.ParseFile", 0, 2) != 0 ==> result != nil && nfs() == 0 && ncalls("parser.WriteCodeToFile") == 0
 //@   ensures [C16:compile-input] ncalls("parser.ParseFile") == 1 && callarg("parser.ParseFile", 0, 0) == input
+//@   ensures [C16:compile-lua] result == nil && outputs["lua"] != "" ==> ncalls("(parser.LuaWspGenerator).Generate") == 1 && callarg("(parser.LuaWspGenerator).Generate", 0, 1) == callres("parser.ParseFile", 0, 1) && called("parser.WriteCodeToFile", outputs["lua"], callres("(parser.LuaWspGenerator).Generate", 0, 0))
+//@   ensures [C16:compile-lua-off] outputs["lua"] == "" ==> ncalls("(parser.LuaWspGenerator).Generate") == 0
+//@   ensures [C16:compile-rust] result == nil && outputs["rust"] != "" ==> ncalls("(parser.RustGenerator).Generate") == 1 && callarg("(parser.RustGenerator).Generate", 0, 1) == callres("parser.ParseFile", 0, 1) && called("parser.WriteCodeToFile", outputs["rust"], callres("(parser.RustGenerator).Generate", 0, 0))
+//@   ensures [C16:compile-rust-off] outputs["rust"] == "" ==> ncalls("(parser.RustGenerator).Generate") == 0
+//@   ensures [C16:compile-go] result == nil && outputs["go"] != "" ==> ncalls("(parser.GoGenerator).Generate") == 1 && callarg("(parser.GoGenerator).Generate", 0, 1) == callres("parser.ParseFile", 0, 1) && called("parser.WriteCodeToFile", outputs["go"], callres("(parser.GoGenerator).Generate", 0, 0))
+//@   ensures [C16:compile-go-off] outputs["go"] == "" ==> ncalls("(parser.GoGenerator).Generate") == 0
+//@   ensures [C16:compile-java] result == nil && outputs["java"] != "" ==> ncalls("(parser.JavaGenerator).Generate") == 1 && callarg("(parser.JavaGenerator).Generate", 0, 1) == callres("parser.ParseFile", 0, 1) && called("parser.WriteCodeToFile", outputs["java"], callres("(parser.JavaGenerator).Generate", 0, 0))
+//@   ensures [C16:compile-java-off] outputs["java"] == "" ==> ncalls("(parser.JavaGenerator).Generate") == 0
+//@   ensures [C16:compile-python] result == nil && outputs["python"] != "" ==> ncalls("(parser.PythonGenerator).Generate") == 1 && callarg("(parser.PythonGenerator).Generate", 0, 2) == callres("parser.ParseFile", 0, 1) && called("parser.WriteCodeToFile", outputs["python"], callres("(parser.PythonGenerator).Generate", 0, 0))
+//@   ensures [C16:compile-python-off] outputs["python"] == "" ==> ncalls("(parser.PythonGenerator).Generate") == 0
+//@   ensures [C16:compile-cpp] result == nil && outputs["cpp"] != "" ==> ncalls("(parser.CppGenerator).Generate") == 1 && callarg("(parser.CppGenerator).Generate", 0, 2) == callres("parser.ParseFile", 0, 1) && called("parser.WriteCodeToFile", outputs["cpp"], callres("(parser.CppGenerator).Generate", 0, 0))
+//@   ensures [C16:compile-cpp-off] outputs["cpp"] == "" ==> ncalls("(parser.CppGenerator).Generate") == 0
+//@   ensures [C16:compile-nowhere-else] result == nil ==> ncalls("parser.WriteCodeToFile") == ite(outputs["lua"] != "", 1, 0) + ite(outputs["rust"] != "", 1, 0) + ite(outputs["go"] != "", 1, 0) + ite(outputs["java"] != "", 1, 0) + ite(outputs["python"] != "", 1, 0) + ite(outputs["cpp"] != "", 1, 0)
+//@   ensures [C16:compile-no-direct-fs] nfs() == 0
